@@ -29,6 +29,7 @@ ASSUMPTIONS = [
     "allow_negative_balances=True so that only the matcher (not the per-account balance guard) is observed",
     "a valid history that rp2 rejects is C02's subject and is counted here as skipped",
 ]
+RULE += e2e.RULE_SUFFIX
 
 CFG = gen.GenCfg(min_steps=2, max_steps=14)
 
